@@ -73,6 +73,13 @@ def cmpOp (op : Nat) (a b : Int) : Bool :=
   match op with
   | 0 => a < b | 1 => a ≤ b | 2 => a == b | 3 => a != b | 4 => a ≥ b | _ => a > b
 
+/-- elementwise comparison of level vectors (`_resource_level.py`): every pair must satisfy the
+operator; `!=` is `not ==` -/
+def vecCmp (op : Nat) (a b : List Int) : Bool :=
+  match op with
+  | 3 => !((a.zip b).all (fun p => p.1 == p.2))
+  | _ => (a.zip b).all (fun p => cmpOp op p.1 p.2)
+
 /-- `bool(condition)` (`fuel` bounds the nesting depth of connectives) -/
 def evalCond (w : World τ) : Nat → CondId → Bool
   | 0, _ => false
@@ -90,6 +97,7 @@ def evalCond (w : World τ) : Nat → CondId → Bool
     | .done _ v _ => v
     | .notDone d => !(evalCond w fuel d)
     | .cmp x op v => cmpOp op (w.tracked.getD x default).value v
+    | .resCmp r op amounts => vecCmp op (w.res.getD r default).levels amounts
     | .delay _ => true
     | .plain => true
 
@@ -172,6 +180,7 @@ def invertNorm : CExpr τ → Option (CExpr τ)
   | .all cs => (invertNorms cs).map .any
   | .any cs => (invertNorms cs).map .all
   | .tracked x op v => some (.tracked x (match op with | 0 => 4 | 4 => 0 | 5 => 1 | 1 => 5 | 2 => 3 | _ => 2) v)
+  | .resLevel r op v => some (.resLevel r (match op with | 0 => 4 | 4 => 0 | 5 => 1 | 1 => 5 | 2 => 3 | _ => 2) v)
 def invertNorms : List (CExpr τ) → Option (List (CExpr τ))
   | [] => some []
   | c :: cs => (invertNorm c).bind (fun c' => (invertNorms cs).map (c' :: ·))
@@ -216,6 +225,10 @@ def buildNorm (w : World τ) : CExpr τ → Option (World τ × CondId)
   | .tracked x op v =>
     let (w, c) := w.newCond (.cmp x op v)
     some ({ w with tracked := w.tracked.modify x (fun t => { t with listeners := t.listeners ++ [c] }) }, c)
+  | .resLevel r op v =>
+    (lookup w.resNames r).map (fun rid =>
+      let (w, c) := w.newCond (.resCmp rid op v)
+      ({ w with res := w.res.modify rid (fun t => { t with listeners := t.listeners ++ [c] }) }, c))
 def buildNorms (w : World τ) : List (CExpr τ) → Option (World τ × List CondId)
   | [] => some (w, [])
   | c :: cs => (buildNorm w c).bind (fun (w, i) => (buildNorms w cs).map (fun (w, is) => (w, i :: is)))
